@@ -50,6 +50,10 @@ def instances(tier, seed):
     out.append(dict(name='typing:branched5:small-alphabet', family='typing', graph='branched5', alphabet=['C_3', 'C_R', 'O_3', 'C_1'], cost=200))
     out.append(dict(name='typing:chain5:small-alphabet', family='typing', graph='chain5', alphabet=['C_3', 'C_1', 'C_R', 'Zr8f4'], cost=200))
     out.append(dict(name='typing:ethane-like:two-names', family='typing', graph='ethane-like', alphabet=['C_3', 'H_'], fixed={0: 0, 4: 0}, cost=200))
+    # exclusion sets of a realistic size (a whole metal node / linker: dozens of atoms scattered over a large structure); concrete shape, one
+    # symbolic end point, every atom occurring in several terms
+    out.append(dict(name='exclusion-set:large:N400:excl30', family='exclude-large', N=400, nexcl=30, cost=30))
+    out.append(dict(name='exclusion-set:large:N2500:excl60', family='exclude-large', N=2500, nexcl=60, cost=30))
     out.append(dict(name='retype', family='retype', cost=20))
     out.append(dict(name='typekey:crosshair', family='crosshair', cost=10))
     if tier == 'thorough':
@@ -130,6 +134,41 @@ def crosshair_body(ctx, p):
         shutil.rmtree(d)
 
 
+def exclude_large_body(ctx, p, RU):
+    """delete_if_all_in_set (the exclusion-set step of assign_*_types) on term arrays in which atoms repeat, against an exclusion set of dozens of
+    atoms scattered over the index range: a row goes iff ALL its atoms are in the set"""
+    N, ne = p['N'], p['nexcl']
+    step = N // ne
+    excl = set(range(3, N, step)[:ne])
+    ex = sorted(excl)
+    x = ctx.int('x', ex[4] - 1, ex[4] + 2)        # a symbolic end point next to / on an excluded atom
+    for ar in (2, 3, 4):
+        rows = []
+        for j in range(6):        # rows wholly inside the set, sharing atoms with one another
+            rows.append([ex[(j + c) % 8] for c in range(ar)])
+        for j in range(6):        # rows with one atom outside
+            r = [ex[(2 * j + c) % 10] for c in range(ar)]
+            r[j % ar] = ex[j] + 1
+            rows.append(r)
+        rows.append([ex[1]] * (ar - 1) + [x])          # inside iff x is excluded
+        rows.append([x] + [ex[2] + 1] * (ar - 1))       # never wholly inside
+        arr = ctx.np.array(rows, dtype=object if ctx.sym else int)
+        out = RU.delete_if_all_in_set(arr, set(excl))
+        got = [tuple(int(v) for v in r) for r in out]
+        xin = OR(*[EQ(x, e) for e in ex])
+        with core.nosimplify():
+            want_rows = []
+            for r in rows:
+                conc_in = all((v in excl) for v in r if not isinstance(v, core.Sym) and v is not x)
+                has_x = any(v is x for v in r)
+                want_rows.append((r, (conc_in and not has_x, conc_in and has_x)))
+            xv = int(x)
+            want = [tuple(int(v) for v in r) for r, (always, ifx) in want_rows if not (always or (ifx and xv in excl))]
+            ctx.require(f'arity {ar}: a term is removed exactly when all its atoms are in the exclusion set (atoms repeat across terms)', got == want,
+                        detail=dict(arity=ar, got=len(got), want=len(want)))
+        ctx.observe(f'kept{ar}', len(got))
+
+
 def body(ctx, p):
     fam = p['family']
     if fam == 'crosshair':
@@ -148,6 +187,8 @@ def body(ctx, p):
         ctx.observe('len', len(ka))
         return
     RU = ctx.ms.rough_uff
+    if fam == 'exclude-large':
+        return exclude_large_body(ctx, p, RU)
     if fam == 'enumerate':
         edges = GRAPHS[p['graph']]
         B = len(edges)
